@@ -231,6 +231,71 @@ func runC04(c *Ctx) {
 
 	// ---- E4 kept sync client ------------------------------------------------------------------------
 	c04KeptClient(c)
+	// ---- E1b the stock hook signals failure only with an error in hand, and continuation only without one: the last
+	// FailSync call wins, so an unconditional FailSync(err) lets a later successful block erase an earlier failure
+	if mk := c.Func(dagsyncPkg, "MakeGeneralBlockHook"); mk != nil && len(mk.SSA.AnonFuncs) == 1 {
+		hook := mk.SSA.AnonFuncs[0]
+		for _, cs := range c.Calls(hook, Invoke("SegmentSyncActions.FailSync")) {
+			okF := false
+			if len(cs.X.Args) == 2 {
+				_, okF = c.Guarded(cs.In, EqNil(Is(cs.X.Args[1])), false)
+			}
+			c.Check(okF, "C04.E1-hook-failure", c.short(mk.SSA.String())+" › FailSync only with an error", cs.In.Pos(), "the stock hook calls FailSync on the err != nil edge of its lookup", "the stock hook calls FailSync without knowing that the error is non-nil: FailSync(nil) after an earlier failure in the same segment erases it and the sync reports success")
+		}
+		for _, cs := range c.Calls(hook, Invoke("SegmentSyncActions.SetNextSyncCid")) {
+			_, okN := c.Guarded(cs.In, EqNil(Extract("1", Op("dyncall", ""))), true)
+			c.Check(okN, "C04.E1-hook-failure", c.short(mk.SSA.String())+" › continuation only without an error", cs.In.Pos(), "the stock hook sets the next CID on the err == nil edge of its lookup", "the stock hook continues the traversal although its lookup failed")
+		}
+	}
+
+	// ---- E6 a stalled publisher becomes a failed sync: every HTTP client a sync client is built around carries the
+	// configured request timeout (the libp2p-HTTP client comes back from NamespacedClient without one)
+	if ns := c.Func(ipnisyncPkg, "Sync.NewSyncer"); ns != nil {
+		var tset []*ssa.Store
+		instrs(ns.SSA, func(in ssa.Instruction) {
+			if st, ok := in.(*ssa.Store); ok {
+				if a := c.E(st.Addr); a.Op == "field" && a.Name == "Timeout" && strings.HasSuffix(typeOfX(a.Args[0]), "net/http.Client") {
+					if _, m := Match(Field("httpTimeout", Any()), c.E(st.Val)); m {
+						tset = append(tset, st)
+					}
+				}
+			}
+		})
+		for _, b := range ns.SSA.Blocks {
+			ret, ok := b.Instrs[len(b.Instrs)-1].(*ssa.Return)
+			if !ok || len(ret.Results) != 2 || c.RetX(ret, 1).Op != "nil" {
+				continue
+			}
+			okT := false
+			for _, st := range tset {
+				if st.Block().Dominates(b) {
+					okT = true
+				}
+			}
+			why := ""
+			if !okT {
+				// acceptable only if every client that can be used is the subscriber's own pre-configured one
+				okT = true
+				for _, l := range c.Leaves(c.RetX(ret, 0), ret) {
+					fs := c.CellFields(l)
+					cl := fs["client"]
+					if cl == nil {
+						okT, why = false, "client of the returned sync client not found"
+						continue
+					}
+					for _, cv := range c.Leaves(cl, ret) {
+						cv = strip(cv)
+						if !(cv.Op == "field" && cv.Addr && fieldOwner(cv) == "Sync") {
+							okT, why = false, abbreviate(cv.String())
+						}
+					}
+				}
+			}
+			c.Check(okT, "C04.E6-client-timeout", ns.Name+" › request timeout", ret.Pos(), "the configured HTTP timeout is stored into the client before the sync client is returned", "a sync client can be built around an HTTP client ("+why+") that never gets the configured timeout: a stalled response hangs the sync instead of failing it, no error is reported and later syncs of the publisher stay blocked")
+		}
+	}
+	c.Floor("C04.E6-client-timeout", 1)
+
 	// ---- E5 fallback state ---------------------------------------------------------------------------
 	c04Fallback(c)
 }
@@ -264,7 +329,7 @@ func c04HookFailure(c *Ctx) {
 				"success return dominated by the hook-signalled error being nil", "a sync whose hook signalled failure can return success (latest-synced updated, success notification sent)")
 		}
 	}
-	c.Floor("C04.E1-hook-failure", 2)
+	c.Floor("C04.E1-hook-failure", 4)
 }
 
 func c04KeptClient(c *Ctx) {
